@@ -206,6 +206,88 @@ theorem bisect_startsOf (p : Nat) (A B : List Text) (m : Text) (c : Nat) (hc : c
     bisectRight (startsOf p (A ++ m :: B)) (p + (pre A).length + c) = A.length + 1 :=
   bisect_startsOf' p A B m _ (by omega) (by omega)
 
+/-! ### `bisect_right`: the binary search equals its specification on sorted lists -/
+
+theorem takeWhile_le_sorted (a : List Nat) (hs : a.Pairwise (· ≤ ·)) (x : Nat) :
+    (∀ j v, j < (a.takeWhile (· ≤ x)).length → a[j]? = some v → v ≤ x) ∧
+    (∀ j v, (a.takeWhile (· ≤ x)).length ≤ j → a[j]? = some v → x < v) ∧
+    (a.takeWhile (· ≤ x)).length ≤ a.length := by
+  induction a with
+  | nil => simp
+  | cons b bs ih =>
+    rw [List.pairwise_cons] at hs
+    obtain ⟨i1, i2, i3⟩ := ih hs.2
+    by_cases hb : b ≤ x
+    · simp only [List.takeWhile_cons, hb, decide_true, if_true, List.length_cons]
+      refine ⟨?_, ?_, by omega⟩
+      · intro j v hj hv
+        cases j with
+        | zero => simp at hv; omega
+        | succ j => exact i1 j v (by omega) (by simpa using hv)
+      · intro j v hj1 hv
+        cases j with
+        | zero => omega
+        | succ j => exact i2 j v (by omega) (by simpa using hv)
+    · simp only [List.takeWhile_cons, hb, decide_false, Bool.false_eq_true, if_false, List.length_nil]
+      refine ⟨by intro j v hj; omega, ?_, by simp⟩
+      intro j v _ hv
+      cases j with
+      | zero => simp at hv; omega
+      | succ j =>
+        have hmem : v ∈ bs := List.mem_of_getElem? (by simpa using hv)
+        have := hs.1 _ hmem
+        omega
+
+/-- on a sorted list the binary search of `bisect_right` returns the number of entries `≤ x` -/
+theorem bisectRightAlg_eq (a : List Nat) (hs : a.Pairwise (· ≤ ·)) (x : Nat) :
+    bisectRightAlg a x = bisectRight a x := by
+  obtain ⟨h1, h2, h3⟩ := takeWhile_le_sorted a hs x
+  unfold bisectRight
+  generalize (a.takeWhile (· ≤ x)).length = r at h1 h2 h3
+  have key : ∀ fuel lo hi, lo ≤ r → r ≤ hi → hi ≤ a.length → hi - lo < fuel → bisectLoop a x fuel lo hi = r := by
+    intro fuel
+    induction fuel with
+    | zero => intro lo hi _ _ _ h; omega
+    | succ f ih =>
+      intro lo hi hlo hhi hlen hf
+      simp only [bisectLoop]
+      split
+      · rename_i hlt
+        have hmid1 : lo ≤ (lo + hi) / 2 := by omega
+        have hmid2 : (lo + hi) / 2 < hi := by omega
+        have hget : a[(lo + hi) / 2]? = some a[(lo + hi) / 2] := List.getElem?_eq_getElem (by omega)
+        simp only [hget, Option.getD_some]
+        split
+        · rename_i hx
+          -- x < a[mid]: mid is not among the first r entries
+          have : r ≤ (lo + hi) / 2 := by
+            rcases Nat.lt_or_ge ((lo + hi) / 2) r with h | h
+            · have := h1 _ _ h hget; omega
+            · exact h
+          exact ih lo _ hlo this (by omega) (by omega)
+        · rename_i hx
+          have : (lo + hi) / 2 < r := by
+            rcases Nat.lt_or_ge ((lo + hi) / 2) r with h | h
+            · exact h
+            · have := h2 _ _ h hget; omega
+          exact ih _ hi (by omega) hhi hlen (by omega)
+      · omega
+  exact key _ 0 a.length (Nat.zero_le _) h3 (Nat.le_refl _) (by omega)
+
+/-- line starts are increasing -/
+theorem startsOf_sorted (p : Nat) (ls : List Text) :
+    (∀ x ∈ startsOf p ls, p ≤ x) ∧ (startsOf p ls).Pairwise (· ≤ ·) := by
+  induction ls generalizing p with
+  | nil => simp [startsOf]
+  | cons l ls ih =>
+    obtain ⟨h1, h2⟩ := ih (p + l.length + 1)
+    simp only [startsOf, List.mem_cons, List.pairwise_cons]
+    refine ⟨?_, ?_, h2⟩
+    · rintro x (rfl | hx)
+      · exact Nat.le_refl _
+      · have := h1 x hx; omega
+    · intro x hx; have := h1 x hx; omega
+
 /-! ### the views of a document in normal form -/
 
 /-- `(t, i)` in normal form: `A` the lines before the current one, `m1`/`m2` the current line
@@ -264,6 +346,8 @@ theorem Normal.lineStarts (h : Normal t i A m1 m2 B) :
 theorem Normal.findLineStart (h : Normal t i A m1 m2 B) :
     findLineStart t i = (A.length, (pre A).length) := by
   unfold Ptk.C02.findLineStart
+  simp only
+  rw [bisectRightAlg_eq _ (by rw [lineStarts_eq]; exact (startsOf_sorted 0 _).2)]
   rw [h.lineStarts, h.idx]
   have hb := bisect_startsOf 0 A B (m1 ++ m2) m1.length (by simp)
   simp only [Nat.zero_add] at hb
